@@ -1403,6 +1403,17 @@ func (g *G) subStmtL(inList bool) Out {
 		g.Kinds["label"]++
 		g.nameSeq++
 		l := fmt.Sprintf("L%d", g.nameSeq)
+		if g.chance("kwlabel", 4) {
+			// contextual keywords are identifiers: legal labels (one of each at a time: labels may not be nested twice)
+			kw := g.pick("kwlabelname", []string{"async", "let", "of", "get", "set", "static", "as", "target"})
+			free := true
+			for _, x := range g.labels {
+				free = free && x != kw
+			}
+			if free {
+				l = kw
+			}
+		}
 		g.labels = append(g.labels, l)
 		g.inLoop++
 		var b Out
